@@ -13,9 +13,11 @@ open Glonax.Driver
 
 def dispatch (prop : String) (inp out : List String) : Verdict :=
   match prop with
-  | "C07" => C07.check inp out
-  | "C01" => if inp.head? == some "auth" then AuthDrv.check "C01" inp out else C01.check inp out
-  | "C02" => if inp.head? == some "auth" then AuthDrv.check "C02" inp out else C02.check inp out
+  | "C07" => if inp.head? == some "volvo" || inp.head? == some "acc" then DrvDrv.check "C08" inp out else C07.check inp out
+  | "C01" => if inp.head? == some "auth" then AuthDrv.check "C01" inp out
+             else if inp.head? == some "bus" then BusDrv.check inp out else C01.check inp out
+  | "C02" => if inp.head? == some "auth" then AuthDrv.check "C02" inp out
+             else if inp.head? == some "bus" then BusDrv.check inp out else C02.check inp out
   | "C17" => C17.check inp out
   | "C13" => C13.check inp out
   | "C03" => SessDrv.check "C03" inp out
